@@ -654,12 +654,18 @@ func (x *Evaluator) evalKnown(callee *ssa.Function, call *ssa.Call, idx int, e *
 }
 
 func (x *Evaluator) evalSprintf(args []ssa.Value, e *env, c *evalCtx) Val {
-	f, ok := args[0].(*ssa.Const)
-	if !ok || f.Value == nil || f.Value.Kind() != constant.String {
+	format := ""
+	if f, ok := args[0].(*ssa.Const); ok && f.Value != nil && f.Value.Kind() == constant.String {
+		format = constant.StringVal(f.Value)
+	} else {
+		// a format kept in a field or a table whose value is one known text
 		ft := asTmpl(x.evalC(args[0], e, c))
-		return strV(Tmpl{Unknown{"non-constant format " + ft.String()}})
+		lit, isLit := litOnly(ft)
+		if !isLit {
+			return strV(Tmpl{Unknown{"non-constant format " + ft.String()}})
+		}
+		format = lit
 	}
-	format := constant.StringVal(f.Value)
 	var vals []Val
 	if len(args) > 1 {
 		if l, ok := x.evalC(args[1], e, c).(ListV); ok && l.IsFinite {
